@@ -276,6 +276,33 @@ type c19mxOpen struct {
 
 var c19mxSlow int32 // cases in which connections stayed open past the patience
 
+// c19mxAsync: what the hooks in the instrumented code report while a case runs (from any goroutine): the calls of
+// mxConn.Close() per connection object, and panics of goroutines the pool started for itself (`go conn.Close()`).
+var c19mxAsync struct {
+	sync.Mutex
+	closes map[*mxConn]int
+	panics []string
+}
+
+func c19mxHooks() {
+	vcoop.SetHooks(vcoop.Hooks{
+		Panic: func(v interface{}) {
+			c19mxAsync.Lock()
+			c19mxAsync.panics = append(c19mxAsync.panics, fmt.Sprint(v))
+			c19mxAsync.Unlock()
+		},
+		Event: func(kind string, arg interface{}) {
+			if mc, ok := arg.(*mxConn); ok && kind == "mxclose" {
+				c19mxAsync.Lock()
+				if c19mxAsync.closes != nil {
+					c19mxAsync.closes[mc]++
+				}
+				c19mxAsync.Unlock()
+			}
+		},
+	})
+}
+
 // c19mxRec buffers the output of one case: it is written out only when the case came back (the code under
 // test may block for ever; the goroutine of such a case is abandoned and must not write any more).
 type c19mxRec struct {
@@ -358,6 +385,9 @@ func c19mxRun(env *c19mxEnv, cs *c19mxCase, out *vh.Out) {
 
 func c19mxRun1(env *c19mxEnv, cs *c19mxCase, out *c19mxRec) {
 	env.reset()
+	c19mxAsync.Lock()
+	c19mxAsync.closes, c19mxAsync.panics = map[*mxConn]int{}, nil
+	c19mxAsync.Unlock()
 	tgt := c19mxTarget(env, cs)
 	ctx := context.Background()
 	op := c19mxOp(cs)
@@ -366,6 +396,19 @@ func c19mxRun1(env *c19mxEnv, cs *c19mxCase, out *c19mxRec) {
 	violate := func(sig, detail string) {
 		if _, ok := viol[sig]; !ok {
 			viol[sig] = detail
+		}
+	}
+	// closed exactly once / no crash, from the hooks: Close() calls per connection object, panics of pool goroutines
+	async := func(conns []*c19mxConn) {
+		c19mxAsync.Lock()
+		defer c19mxAsync.Unlock()
+		for _, m := range conns {
+			if n := c19mxAsync.closes[m.c]; n > 1 {
+				violate("C19/closed-twice", fmt.Sprintf("connection %d (last returned under %s): Close() was called %d times (conn_max_idle_count %d)", m.id, c19mxDomain(m.retKey), n, cs.maxConns))
+			}
+		}
+		if len(c19mxAsync.panics) > 0 {
+			violate("C19/panic", "a goroutine started by the pool panicked: "+c19mxAsync.panics[0])
 		}
 	}
 	var (
@@ -553,6 +596,8 @@ func c19mxRun1(env *c19mxEnv, cs *c19mxCase, out *c19mxRec) {
 	}()
 	if panicked {
 		// the pool may be left with its lock held: record what was seen and leave the target alone
+		time.Sleep(5 * time.Millisecond)
+		async(conns)
 		sigs := make([]string, 0, len(viol))
 		for s := range viol {
 			sigs = append(sigs, s)
@@ -602,6 +647,7 @@ func c19mxRun1(env *c19mxEnv, cs *c19mxCase, out *c19mxRec) {
 		}
 	}
 	sort.Ints(closed)
+	async(conns)
 	// what the servers saw: every transaction on the connection of its own domain
 	for _, b := range env.bes {
 		b.mu.Lock()
@@ -626,6 +672,27 @@ func c19mxRun1(env *c19mxEnv, cs *c19mxCase, out *c19mxRec) {
 	}
 	out.Corr(op, obs)
 	out.Stat("mx.style " + cs.style)
+	nopenNow, maxOpen := map[int]int{}, 0
+	for _, o := range cs.ops {
+		switch o[0] {
+		case 'o', 'x':
+			k, _ := strconv.Atoi(o[1:])
+			nopenNow[k]++
+			if nopenNow[k] > maxOpen {
+				maxOpen = nopenNow[k]
+			}
+		case 'c':
+			for k := range nopenNow { // (an approximation: the oldest open delivery ends)
+				if nopenNow[k] > 0 {
+					nopenNow[k]--
+					break
+				}
+			}
+		}
+	}
+	if maxOpen > cs.maxConns {
+		out.Stat("mx.more overlapping deliveries to one domain than conn_max_idle_count")
+	}
 	out.Stat(fmt.Sprintf("mx.connections %d", len(conns)))
 	out.Stat(fmt.Sprintf("mx.maxKeys %d", cs.maxKeys))
 	for _, tk := range toks {
@@ -689,7 +756,43 @@ func c19mxGen(r *vh.Rng) *c19mxCase {
 	if r.Chance(14) {
 		style = 3
 	}
+	if r.Chance(16) {
+		style = 4
+	}
 	switch style {
+	case 4:
+		// more overlapping deliveries to one destination than conn_max_idle_count: when they end, the idle bound is hit
+		// on Return — the surplus connections are closed by the pool, once each, by nobody else; the kept ones are
+		// handed out again
+		cs.style = "overflow"
+		k := r.Intn(nd)
+		n := cs.maxConns + 1 + r.Intn(3)
+		for i := 0; i < n; i++ {
+			cs.ops = append(cs.ops, "o"+strconv.Itoa(k))
+			nopen++
+			if r.Chance(15) {
+				cs.ops = append(cs.ops, "o"+strconv.Itoa(r.Intn(nd)))
+				nopen++
+			}
+		}
+		if r.Chance(30) {
+			cs.ops = append(cs.ops, "t1")
+		}
+		for nopen > 0 {
+			emitCommit()
+		}
+		if r.Chance(70) {
+			for i, m := 0, 1+r.Intn(n); i < m; i++ {
+				cs.ops = append(cs.ops, "o"+strconv.Itoa(k))
+				nopen++
+			}
+			for nopen > 0 {
+				emitCommit()
+			}
+		}
+		if r.Chance(30) {
+			cs.ops = append(cs.ops, "k")
+		}
 	case 3:
 		// the context of a delivery is cancelled / times out while pool.Get waits for the answer of a slow next hop to
 		// the RSET by which it probes a pooled connection (some of the pooled ones are past their lifetime or were
@@ -869,6 +972,8 @@ func TestVerifC19Mx(t *testing.T) {
 		t.Fatal(err)
 	}
 	defer env.stop()
+	c19mxHooks()
+	defer vcoop.SetHooks(vcoop.Hooks{})
 	if rp := vh.Replay(); rp != nil {
 		for _, line := range rp {
 			switch {
